@@ -97,6 +97,15 @@ def lin_case(ctx, S, a, b, m, tag):
             s = S.LinearScale().domain(shared)
             other.nice(2)
             ctx.path("linear.same-list-given-to-two-scales")
+        elif mode == 3:
+            # the scale object held a single-point domain before (and was asked to be nice there)
+            s = S.LinearScale().domain([a, a])
+            try:
+                s.nice(m) if m is not None else s.nice()
+            except Exception:
+                pass
+            s.domain([a, b])
+            ctx.path("linear.same-object-after-a-degenerate-domain")
         else:
             s = S.LinearScale().domain([a, b])
         _REUSE["lin"] = s
@@ -159,6 +168,15 @@ def time_case(ctx, S, a, b, m, tag):
         elif mode == 2:
             s = S.TimeScale().domain(iter([a, b]))  # any iterable of two instants, here a one-shot iterator
             ctx.path("time.domain-from-an-iterator")
+        elif mode == 3:
+            # the scale object held a single-instant domain before (and was asked to be nice there)
+            s = S.TimeScale().domain([a, a])
+            try:
+                s.nice(m) if m is not None else s.nice()
+            except Exception:
+                pass
+            s.domain([a, b])
+            ctx.path("time.same-object-after-a-single-instant-domain")
         else:
             s = S.TimeScale().domain([a, b])
         _REUSE["time"] = s
